@@ -77,6 +77,12 @@ class Ctx:
         self.known = [k for k in load_known() if k["property"] == prop]
         self.nrep = 0
         self.log = []
+        import glob
+        for f in glob.glob(os.path.join(V, "replays", f"{prop}-*.json")):
+            try:
+                os.remove(f)
+            except OSError:
+                pass
 
     def note(self, s):
         self.log.append(s)
